@@ -63,6 +63,10 @@ CLAIMED = {
     text="Proof: variable-byte integers for all values (round trip, minimality, rejection) by arithmetic; the property and reason-code tables regenerated from the source on every run equal the hand-transcribed MQTT 5.0 tables on their whole finite domains (vm_compute lifted by forallb_forall); pack = the specification's encoding and unpack(pack ps ++ rest) = (ps, length) for every valid property set of any length, repeatable properties in order; not-allowed, unknown and out-of-range properties raise; reason codes construct/pack/unpack exactly for the specified (packet type, value) pairs; subscribe options exhaustively. Open findings F-C17f/g/h are excluded explicitly.",
     ref="4.17", technique="Coq proof: finite-domain decision for the generated tables, arithmetic for VBI, round trip for all property lists; tables and codec leaves translated from the source each run; differential execution",
     note="Trusted: Coq kernel (incl. vm_compute), py2v table generator and leaf translator, extraction+driver, harness; the transcription of the OASIS tables (from memory, no network); CPython's UTF-8 codec and struct."),
+ "C07": dict(
+    text="Proof, PARTIAL by nature: theorems about an interleaving model (one atomic shared access per step: lock acquire/release, one attribute load/store, one deque operation, one pipe send/recv, one send()) for EVERY schedule, any number of publisher threads and messages: packet ids handed to different (thread, message) pairs are distinct (mutual exclusion on the id lock; also C14's thread clause); wire ++ in-hand ++ queue is always an order-preserving interleaving of the publishers' packets, each exactly once when drained; no lost wake-up (a queued packet is written without consuming a select() timeout); CONNECT is the first packet on every connection for every schedule of reconnect vs publishers; the loop thread has no failing step; no packet is dropped unmarked; deadlock freedom from an acyclic held-while-acquiring relation, instantiated on the lock graph generated from client.py. What the model cannot exhibit - CPython's real preemption inside C-level operations (GIL atomicity of single container operations is assumed), loop_stop()/info.rc/_inflight_messages races - is explored on the real code by a controlled scheduler (sys.monitoring line/instruction switching points, cooperative locks, fake select/pipe): exhaustive up to a preemption bound and seeded random/PCT schedules, every run replayable. Open finding F-C07f.",
+    ref="4.7", technique="Coq proof over an interleaving model for all schedules + controlled-scheduler exploration of the real client (exploration validates the model and searches failing schedules; it is not part of the proof)",
+    note="Trusted/assumed: Coq kernel; GIL atomicity of one deque operation / attribute access / pipe operation; whole-packet writes (C06); the lock-graph translator; the scheduler harness. The exploration part is bounded (preemption bound 2-3) and labelled as exploration in the evidence."),
 }
 PENDING = {}
 for i in range(1, 21):
